@@ -31,7 +31,7 @@ COMPONENTS = {'real': ['compiled enspara.info_theory.libinfo (unmodified generat
 ASSUMPTIONS = ['at least one frame per trajectory (zero frames is outside the statement)',
                'state counts >= 2 per feature for channel-capacity normalisation (the routine asserts it)',
                'floating tolerances for the algebraic laws: 1e-9 absolute / relative']
-REACH_EXPECTED = ['ids_beyond_the_signed_range_of_the_other_side', 'invalid_negative_beside_unsigned', 'state_counts_in_a_narrow_integer_type', 'pooled_trajectories_serial_variant', 'weighted_many_states_narrow_type', 'views_sharing_first_element', 'long_trajectory', 'team_ge_2', 'one_thread_per_feature', 'different_feature_counts', 'different_state_counts',
+REACH_EXPECTED = ['invalid_length_long_inputs', 'ids_beyond_the_signed_range_of_the_other_side', 'invalid_negative_beside_unsigned', 'state_counts_in_a_narrow_integer_type', 'pooled_trajectories_serial_variant', 'weighted_many_states_narrow_type', 'views_sharing_first_element', 'long_trajectory', 'team_ge_2', 'one_thread_per_feature', 'different_feature_counts', 'different_state_counts',
                   'mixed_dtypes', 'self_counts', 'invalid_negative', 'invalid_too_large', 'invalid_length', 'invalid_mixed_dtypes', 'pooled_trajectories',
                   'weighted_uniform', 'relabel_invariance', 'permutation_invariance', 'schedule_pair_compared']
 INTS = ('int8', 'int16', 'int32', 'int64', 'uint8', 'uint16', 'uint32', 'uint64')
@@ -409,6 +409,14 @@ def invalid(ctx, t):
             cands = [info.max]
         tgt[t.draw(nfr), t.draw(tgt.shape[1])] = t.choice(cands)
         ctx.hit('invalid_too_large')
+    elif t.flag(1, 5):
+        # long inputs whose shorter side has a 'round' length: a check made block by block must still see the surplus frames
+        base = t.choice((4096, 8192, 16384))
+        extra = t.irange(1, 3)
+        fa, fb = t.irange(1, 2), t.irange(1, 2)
+        A = gen_features(t, base + (extra if side == 0 else 0), fa, na, dts[0])
+        B = gen_features(t, base + (extra if side == 1 else 0), fb, nb, dts[1])
+        ctx.hit('invalid_length_long_inputs')
     else:
         if side == 0:
             A = A[:nfr - 1 - t.draw(min(2, nfr - 1))]
